@@ -312,11 +312,10 @@ theorem ext_message_layout (wc : Int) (addr : List UInt8) (body : Cell) (init : 
       b'.toCell = Cell.mk 0 0 c.1 c.2 :=
   impl_cell_eq_spec _ _ _ impl_eq_spec_Message fuel _ hd b' he
 
-/-- **reencode_real** (from C03 `reencode_hash_partial`): for the listed structures a cell produced by the encoder
-decodes and re-encodes to the same cell, hence the same hash. For cells that come from the chain the statement is
-checked, not proved: every transaction and message of the test blocks is re-encoded by the Go code and the hashes
-compared (`go.redec`); the records whose source encoding is not the one tongo writes are counted and listed. -/
-theorem reencode_real (H : List UInt8 → List UInt8) (fuel : Nat) (v : Val)
+/-- **reencode_own_output_message** (formerly `reencode_real`; from C03 `reencode_own_output`): a cell produced BY THE
+ENCODER decodes and re-encodes to the same cell. It says nothing about cells that come from the chain: that is
+`reencode_chain_cell`. -/
+theorem reencode_own_output_message (H : List UInt8 → List UInt8) (fuel : Nat) (v : Val)
     (hd : inDom TongoGen.TlbTypes.env fuel TongoGen.TlbTypes.desc_tlb_Message v = true) (b1 : Builder)
     (he : encode TongoGen.TlbTypes.env fuel TongoGen.TlbTypes.desc_tlb_Message v Builder.empty = .ok b1)
     (v2 : Val) (rest : Slice)
@@ -324,8 +323,24 @@ theorem reencode_real (H : List UInt8 → List UInt8) (fuel : Nat) (v : Val)
       = .ok (v2, rest)) (b2 : Builder)
     (he2 : encode TongoGen.TlbTypes.env fuel TongoGen.TlbTypes.desc_tlb_Message v2 Builder.empty = .ok b2) :
     Cell.reprHash H b2.toCell = Cell.reprHash H b1.toCell :=
-  (C03.reencode_hash_partial H _ C03.generated_env_wf _ TongoGen.TlbTypes.wf_tlb_Message fuel v hd b1 he v2 rest
+  (C03.reencode_own_output H _ C03.generated_env_wf _ TongoGen.TlbTypes.wf_tlb_Message fuel v hd b1 he v2 rest
     hdec b2 he2).2
+
+/-- **reencode_chain_cell** — the clause "structures decoded from real chain data and encoded again reproduce the
+original cell hash wherever the encoding is unique", with the uniqueness condition made explicit and decidable: ANY
+cell (from the chain, from another implementation) that satisfies `canonicalCell` — ordinary cells, minimal
+`VarUInteger` / `Grams` length prefixes, dictionary labels in TON's shortest form, children entirely consumed — and
+that the regenerated descriptor decodes is rebuilt by the encoder bit for bit and reference for reference. For every
+regenerated descriptor (Message, StateInit, Transaction, Account, CurrencyCollection: `C03.reencode_tlb_*`). Where the
+encoding is NOT unique the hash changes: `C03.CanonTest.noncanonical_cell_witnesses`. On every run the predicate is
+evaluated on the real transactions and messages of the test blocks (op `tlb.canon`: a canonical cell must be reproduced
+by the Go code; `tlb.canoninfo`: how many are canonical). -/
+theorem reencode_chain_cell (H : List UInt8 → List UInt8) (T : Ty) (fuel : Nat) (c : Cell)
+    (hc : canonicalCell TongoGen.TlbTypes.env fuel T c = true) (v : Val) (rest : Slice) (b' : Builder)
+    (hd : decode TongoGen.TlbTypes.env fuel T (Slice.ofCell c) = .ok (v, rest))
+    (he : encode TongoGen.TlbTypes.env fuel T v Builder.empty = .ok b') :
+    b'.toCell = c ∧ Cell.reprHash H b'.toCell = Cell.reprHash H c :=
+  C03.reencode_canonical_cell H _ T fuel c hc v rest b' hd he
 
 /-! ## Non-vacuity (TEST on literals): the spec produces the well-known encodings -/
 set_option maxRecDepth 20000 in
